@@ -418,7 +418,11 @@ func dischargeFlat(obls []*Obl, outDir string, secs int, par int) {
 					return
 				}
 			}
-			res := race(script, file, secs)
+			budget := secs
+			if o.Secs > budget {
+				budget = o.Secs
+			}
+			res := race(script, file, budget)
 			o.Solver, o.Ms = res.solver, res.ms
 			if o.ExpectSat {
 				switch res.verdict {
